@@ -29,9 +29,12 @@ def run(tier, seed):
     light = [n for n in names if not HEAVY.match(n)]
     tasks = [('lib.native', 'run_natives', ('contracts.fingroups', [n], tier)) for n in heavy]
     tasks += [('lib.native', 'run_natives', ('contracts.fingroups', light[i::12], tier)) for i in range(12) if light[i::12]]
+    # proved part: FiniteGroupElement.repeat (square-and-multiply over an abstract monoid) by engine A, with the lemma step checked in Lean
+    tasks += [('vc.tasks', 'run_contract', ('contracts.fingroups_a', 'repeat', 'contracts.fingroups:sym_repeat', tier))]
+    tasks += [('vc.tasks', 'run_lean', ([('L5_L6_L7_extra.lean', 'pow_binary_step', 'a^(2k+bit) = (a^k)^2 * a^bit in any monoid: the step of square-and-multiply')], tier))]
     obs = run_tasks(tasks)
     return finish('C27', tier, seed, obs, 'other', t0,
-                  explanation='bounded executable contracts on the real group classes of mpyc/fingroups.py, one obligation per family x concern (per curve x coordinate system for '
+                  explanation='FiniteGroupElement.repeat proved for all n and all groups satisfying the monoid laws (engine A, abstract operation; lemma in Lean). Bounded executable contracts on the real group classes of mpyc/fingroups.py, one obligation per family x concern (per curve x coordinate system for '
                               'elliptic curves, per parameter set for hyperelliptic curves): operation / operation2 / inversion / identity / associativity / equality, a^n = n-fold '
                               'application for n in -20..40 and large n (naive loop over the real operation and an independent oracle), generator order, agreement of coordinate '
                               'systems after normalisation, decode(encode(m)) == m.  Oracles written for the check: permutations as tuples; ints mod p; own affine group law for short '
